@@ -42,6 +42,53 @@ def m_call_const(pats, arg_index):
     return f
 
 
+def switch_table_const_arg(body, pats, arg_index, min_targets=2):
+    """like switch_table(.., m_call_const(..)), but also reads `let tag = match x { A => 0, B => 1 }; f(tag)`: each arm's constant is
+    followed through the variable into the one call after the match"""
+    prep(body)
+    g = cfg_of(body)
+    blk = widest_switch(body, min_targets)
+    if blk is None:
+        return None
+    t = blk["term"]
+
+    def walk(start):
+        env, b, seen = {}, start, set()
+        for _ in range(12):
+            if b in seen:
+                return None
+            seen.add(b)
+            bb = g.blocks[b]
+            for st in bb["stmts"]:
+                if len(st["d"]) == 1:
+                    rv = st["rv"]
+                    if rv["k"] == "use" and rv["a"][0] == "c":
+                        env[st["d"][0]] = rv["a"][1]
+                    elif rv["k"] in ("use", "cast") and rv["a"][0] in ("cp", "mv") and len(rv["a"][1]) == 1 and rv["a"][1][0] in env:
+                        env[st["d"][0]] = env[rv["a"][1][0]]
+                    else:
+                        env.pop(st["d"][0], None)
+            tt = bb["term"]
+            if tt["k"] == "call" and callee_matches(tt, pats):
+                a = tt["args"][arg_index]
+                if a[0] == "c":
+                    return a[1]
+                if a[0] in ("cp", "mv") and len(a[1]) == 1 and a[1][0] in env:
+                    return env[a[1][0]]
+                return "<non-const>"
+            ss = g.succ[b]
+            if len(ss) != 1:
+                return None
+            b = ss[0][0]
+        return None
+    out = {}
+    for v, dst in t["targets"]:
+        out[int(v)] = walk(dst)
+    if g.term(t["otherwise"])["k"] != "unreachable":
+        out["otherwise"] = walk(t["otherwise"])
+    return out
+
+
 def m_call_name(pats=None):
     def f(blk):
         t = blk["term"]
